@@ -30,7 +30,8 @@ int Hist::new_node(MKind k) { HNode n; n.id = (int)nodes.size(); n.kind = k; n.a
 int Hist::pick(unsigned mask, uint64_t sel, bool need_ser) const {
   std::vector<int> c;
   for (size_t i = 0; i < pool.size(); i++) { const HNode& n = nodes[pool[i]]; if ((kind_mask(n.kind) & mask) && (!need_ser || serialisable(n.id))) c.push_back((int)i); }
-  return c.empty() ? -1 : c[sel % c.size()];
+  if (c.empty()) return -1;
+  return sel == SEL_LAST ? c.back() : c[sel % c.size()];
 }
 bool Hist::reaches(int from, int target) const {
   if (from == target) return true;
@@ -204,9 +205,11 @@ struct OpScope {
   std::vector<BlockImage> image;
   std::set<uint64_t> expect_freed, expect_born;
   OpScope(Hist& hh, const HOp& op, const char* p) : h(hh), props(p) { ctx = fmt("op %s(%llu,%llu,%llu,%llu)", op_name(op.code), (unsigned long long)op.a, (unsigned long long)op.b, (unsigned long long)op.c, (unsigned long long)op.d); }
+  bool snapped = false;
+  void snapshot(const HOp& op) { if (!snapped && h.image_check && op.fk != F_NONE) { image = sa_snapshot(); snapped = true; } }
   void begin(const HOp& op) {
     FaultSpec f; f.kind = op.fk; f.k = op.fkk; f.seed = op.a * 31 + op.b;
-    if (h.image_check && op.fk != F_NONE) image = sa_snapshot();
+    snapshot(op);
     sa_begin(f);
   }
   void end() { w = sa_end(); refused = w.refused_injected > 0; if (refused) { props += ",C06"; h.fired_faults++; stat_add("ops_with_fired_fault"); } }
@@ -225,7 +228,7 @@ struct OpScope {
   }
   // after a refused allocation: the call must have changed nothing
   void unchanged_after_refusal() {
-    if (!image.empty() || (h.image_check && refused)) {
+    if (snapped) {
       std::vector<BlockImage> now = sa_snapshot();
       if (now.size() != image.size()) { fail("C06", "failed-op-changes-live-set", ctx + fmt(": %zu live blocks before the refused call, %zu after", image.size(), now.size())); return; }
       for (size_t i = 0; i < now.size(); i++) {
@@ -260,7 +263,7 @@ OpResult Hist::run_op(const HOp& op0) {
   bool creating = op.code <= OP_BUILD_TAG || op.code == OP_COPY || op.code == OP_LOAD || op.code == OP_LOAD_RAW || op.code == OP_GET || op.code == OP_TAG_ITEM || op.code == OP_INCREF;
   if (creating && ((int)pool.size() >= POOL_MAX || alive_nodes() >= NODES_MAX)) return R;
   // fault index modulo the number of requests the op really makes (ops that can be dry-run); growth ops make at most one request
-  if (op.fk == F_NTH || op.fk == F_FROM) {
+  if ((op.fk == F_NTH || op.fk == F_FROM) && !exact_fault) {
     uint64_t N = dry_requests(op);
     if (N != ~0ull) { if (N == 0) op.fk = F_NONE; else op.fkk %= N; }
     else if (op.code >= OP_PUSH && op.code <= OP_TAG_SET) op.fkk = 0;
@@ -318,6 +321,7 @@ OpResult Hist::run_op(const HOp& op0) {
       bool has_nul = std::find(pl.begin(), pl.end(), 0) != pl.end();
       if (variant == 1) {
         // client-allocated handle (with the installed allocator, as the documentation requires), attached with set_handle
+        S.snapshot(op);
         unsigned char* hbuf = (unsigned char*)sa_client_malloc(pl.size()); if (!pl.empty()) memcpy(hbuf, pl.data(), pl.size());
         S.begin(op);
         it = bs ? cbor_new_definite_bytestring() : cbor_new_definite_string();
@@ -449,9 +453,9 @@ OpResult Hist::run_op(const HOp& op0) {
     }
     case OP_ADD_CHUNK: {
       std::vector<int> strs; for (size_t i = 0; i < pool.size(); i++) { const HNode& n = nodes[pool[i]]; if ((n.kind == MK_BSTR || n.kind == MK_TSTR) && !n.definite) strs.push_back((int)i); }
-      if (strs.empty()) break; int s = pool[strs[op.a % strs.size()]];
+      if (strs.empty()) break; int s = pool[op.a == SEL_LAST ? strs.back() : strs[op.a % strs.size()]];
       std::vector<int> chunks; for (size_t i = 0; i < pool.size(); i++) { const HNode& n = nodes[pool[i]]; if (n.kind == nodes[s].kind && n.definite) chunks.push_back((int)i); }
-      if (chunks.empty()) break; int c = pool[chunks[op.b % chunks.size()]];
+      if (chunks.empty()) break; int c = pool[op.b == SEL_LAST ? chunks.back() : chunks[op.b % chunks.size()]];
       HNode& Sn = nodes[s]; OpScope S(*this, op, "C12"); uint64_t tb = table_block(Sn); S.begin(op);
       bool ok = Sn.kind == MK_BSTR ? cbor_bytestring_add_chunk(Sn.impl, nodes[c].impl) : cbor_string_add_chunk(Sn.impl, nodes[c].impl);
       S.end(); R.executed = true; R.requests = S.w.requests; R.refused = S.refused; R.reported_failure = !ok;
